@@ -3,6 +3,7 @@ class.  They run on every public call made by any workload, so they watch the
 states the drivers pass through, not only the values the drivers ask for.
 All conditions are side-effect free: they read attributes only and keep their
 own bookkeeping outside the observed object."""
+import threading
 import weakref
 from collections import Counter
 
@@ -99,11 +100,17 @@ def state_problem(self):
     return None
 
 
+_memo_lock = threading.RLock()         # the monitor's own bookkeeping is shared by every thread a workload starts
+_tls = threading.local()
+
+
 def sequence_state_ok(self):
     EVALS["inv:Sequence.state"] += 1
     try:
         fp = _fingerprint(self)
-        if _last_ok.get(self) == fp:
+        with _memo_lock:
+            hit = _last_ok.get(self) == fp
+        if hit:
             return True
     except Exception:
         fp = None
@@ -112,19 +119,17 @@ def sequence_state_ok(self):
     if prob is None:
         if fp is not None:
             try:
-                _last_ok[self] = fp
+                with _memo_lock:
+                    _last_ok[self] = fp
             except Exception:
                 pass
         return True
-    sequence_state_ok.last = prob
+    _tls.last = prob
     return False
 
 
-sequence_state_ok.last = ""
-
-
 def _inv_error(self):
-    return ContractBroken("inv:Sequence.state", sequence_state_ok.last)
+    return ContractBroken("inv:Sequence.state", getattr(_tls, "last", ""))
 
 
 def _post(name, pred):
